@@ -147,7 +147,20 @@ func (in *Inst) havocAll(st *State) {
 	e := in.e
 	from := st.clone()
 	ep := &Epoch{id: e.newEpoch(), kind: epHavoc, from: from, memo: map[string]string{}, enc: e,
-		keep: func(name string) bool { return e.isGhostOrLocal(name) || strings.HasPrefix(name, "gf:") }}
+		keep: func(name string) bool {
+			if e.isGhostOrLocal(name) || strings.HasPrefix(name, "gf:") {
+				return true
+			}
+			if ok, d := e.W.immutableOK(name); d != nil {
+				if ok {
+					e.note("immutable field " + d.Key + " survives unknown calls (" + d.Reason + "); checked on this run: every store to it in the module targets an object allocated in the storing function; reflect/unsafe writes not considered")
+				} else {
+					e.note("immutable declaration for " + d.Key + " does NOT hold (" + d.why + "): ignored")
+				}
+				return ok
+			}
+			return false
+		}}
 	st.ep = ep
 	st.ov = map[string]string{}
 }
